@@ -144,19 +144,70 @@ def lean_key_canonical(reply: str) -> str:
     return " ".join(out)
 
 
+# --------------------------------------------------------------------------- assumption declarations
+
+FACT_WIDTH = 31  # `factWidth` of Model/C17Rename.lean
+
+
+def fact_universe() -> list[str]:
+    """SymPy's fact names in alphabetical order: digit i of a declaration belongs to the i-th of them."""
+    from sympy.core.assumptions import _assume_defined
+
+    facts = sorted(_assume_defined)
+    if len(facts) != FACT_WIDTH:
+        raise common.InfraError(f"SymPy defines {len(facts)} assumption facts, the Lean model is written for {FACT_WIDTH}")
+    return facts
+
+
+def enc_decl(assumptions0: dict) -> int:
+    """The complete `assumptions0` dict as the ternary numeral of the Lean model (`Sym.asm`): digit 0 = fact is
+    False, 1 = fact is True, 2 = fact not in the dict; most significant digit = alphabetically first fact."""
+    facts = fact_universe()
+    idx = {f: i for i, f in enumerate(facts)}
+    n = 3**FACT_WIDTH - 1
+    for f, v in assumptions0.items():
+        if f not in idx or not isinstance(v, bool):
+            raise Unprintable(f"assumption outside SymPy's fact set: {f}={v!r}")
+        n -= (1 if v else 2) * 3 ** (FACT_WIDTH - 1 - idx[f])
+    return n
+
+
+def dec_decl(n: int) -> dict:
+    facts = fact_universe()
+    if not 0 <= n < 3**FACT_WIDTH:
+        raise ValueError(f"not a declaration: {n}")
+    out = {}
+    for i, f in enumerate(facts):
+        d = (n // 3 ** (FACT_WIDTH - 1 - i)) % 3
+        if d != 2:
+            out[f] = d == 1
+    return out
+
+
+def truthy_only(assumptions0: dict) -> dict:
+    return {k: v for k, v in assumptions0.items() if v}
+
+
+def loses_facts_if_rebuilt_from_true_facts(s) -> bool:
+    """Is `s` declared through a fact that its True facts do not imply (zero=False, real=False, commutative=False …)?"""
+    import sympy as sp
+
+    return sp.Symbol(s.name, **truthy_only(s.assumptions0)) != s
+
+
 # --------------------------------------------------------------------------- conversion
 
 
 class Conv:
-    """Tables shared by all models of one run (class ids, constant ids, assumption ids, values)."""
+    """Tables shared by all models of one run (class ids, constant ids, assumption declarations, values)."""
 
     def __init__(self):
         self.cls_ids: dict[str, int] = {}
         self.cls_funcs: list = []
         self.const_ids: dict[str, int] = {}
         self.consts: list = []
-        self.asm_ids: dict[tuple, int] = {}
-        self.asms: list[dict] = []
+        self.decl_codes: dict[tuple, int] = {}  # sorted(assumptions0.items()) -> ternary numeral
+        self.decls: dict[int, dict] = {}  # ternary numeral -> assumptions0
         self.val_ids: dict[tuple, int] = {}
         self.vals: list = []
         self._memo: dict = {}
@@ -170,23 +221,46 @@ class Conv:
         if type(s) is not sp.Symbol:
             raise Unprintable(f"symbol of type {type(s).__name__}: {s!r}")
         key = tuple(sorted(s.assumptions0.items()))
-        if key not in self.asm_ids:
-            if self.preregistered:
-                # ids must be numbered in the order of the source's sort key; a set that turns up later cannot be
-                raise Unprintable(f"assumption set not seen when the run's assumption sets were numbered: {dict(key)}")
-            self.asm_ids[key] = len(self.asms)
-            self.asms.append(dict(key))
-        return f"{enc_name(s.name)}/{self.asm_ids[key]}"
+        code = self.decl_codes.get(key)
+        if code is None:
+            a0 = dict(key)
+            # `Symbol(name, **assumptions0)` is the symbol again, with the same assumptions0: the declaration is a
+            # fixed point of SymPy's fact closure (what the model's `⟨new name, source declaration⟩` stands for)
+            again = sp.Symbol(s.name, **a0)
+            if again != s or again.assumptions0 != a0:
+                raise Unprintable(f"assumptions0 is not a fixed point of Symbol(**assumptions0): {a0}")
+            code = enc_decl(a0)
+            if dec_decl(code) != a0:
+                raise Unprintable(f"declaration does not survive the ternary encoding: {a0}")
+            self.decl_codes[key] = code
+            self.decls[code] = a0
+        return f"{enc_name(s.name)}/{code}"
 
     def preregister(self, symbols) -> None:
-        """Number the assumption sets of a run in the order of `str(sorted(s.assumptions0.items()))` — the second
-        component of the sort key of rename_symbols (c9b6eb9); the Lean model compares the numbers."""
-        keys = sorted({tuple(sorted(s.assumptions0.items())) for s in symbols}, key=lambda k: str(list(k)))
-        assert not self.asms
-        for k in keys:
-            self.asm_ids[k] = len(self.asms)
-            self.asms.append(dict(k))
+        """Register the declarations of the symbols of a run (anything that is not a plain Symbol is left to
+        `model_lines`, which refuses it)."""
+        import sympy as sp
+
+        for s in symbols:
+            if type(s) is sp.Symbol:
+                self.sym(s)
         self.preregistered = True
+
+    def order_disagreements_now(self) -> list:
+        """Re-check on ALL pairs of declarations seen so far that the numeric order of the ternary numerals is the order
+        of `str(sorted(s.assumptions0.items()))` — the second component of the sort key of rename_symbols (c9b6eb9),
+        which the Lean model compares as numbers."""
+        keyed = [(code, str(sorted(a0.items()))) for code, a0 in self.decls.items()]
+        bad = []
+        for ca, sa in keyed:
+            for cb, sb in keyed:
+                if (ca < cb) != (sa < sb) or (ca == cb) != (sa == sb):
+                    bad.append((sa, sb))
+        return bad
+
+    def decl_of(self, code: int) -> dict:
+        hit = self.decls.get(code)
+        return hit if hit is not None else dec_decl(code)
 
     def expr(self, e) -> str:
         import sympy as sp
@@ -230,7 +304,7 @@ class Conv:
         import sympy as sp
 
         n, a = tok.rsplit("/", 1)
-        return sp.Symbol(dec_name(n), **self.asms[int(a)])
+        return sp.Symbol(dec_name(n), **self.decl_of(int(a)))
 
     def rebuild(self, text: str):
         """SymPy object for an S-expression: every node through its real constructor."""
@@ -388,8 +462,11 @@ def parse_reply(lines: list[str]) -> LeanReply:
     return r
 
 
-def compare(conv: Conv, real, reply: LeanReply, with_expression: bool = True) -> list[str]:
-    """Attribute by attribute (key order included); returns the list of differences."""
+def compare(conv: Conv, real, reply: LeanReply, with_expression: bool = True, expression_inclusion: bool = True) -> list[str]:
+    """Attribute by attribute (key order included); returns the list of differences. `with_expression`: the free
+    symbols of the derived `expression` must be exactly the model's; `expression_inclusion`: at least contained in them
+    (not claimed when a symbol changes its declaration: SymPy may then undo a simplification of the original, e.g.
+    bring back a term that vanished because a factor was declared zero)."""
     diffs = []
 
     def same(a, b):
@@ -405,7 +482,7 @@ def compare(conv: Conv, real, reply: LeanReply, with_expression: bool = True) ->
 
         lean_free = {conv.symbol_of(t) for t in re.findall(r"\(s ([^\s()]+)\)", reply.expr)}
         real_free = {x for x in real.expression.free_symbols if isinstance(x, sp.Symbol)}
-        if (with_expression and lean_free != real_free) or not real_free <= lean_free:
+        if (with_expression and lean_free != real_free) or (expression_inclusion and not real_free <= lean_free):
             diffs.append(f"expression free symbols: only real {sorted(map(str, real_free - lean_free))[:4]} "
                          f"only model {sorted(map(str, lean_free - real_free))[:4]}")
         ra = list(real.amplitudes.items())
@@ -472,7 +549,148 @@ def _configs():
         ("jpsi_3pi_hel/dpd+stable123+scalar+bw+couplings", "jpsi_3pi_hel",
          {"align": "dpd", "stable": [1, 2, 3], "scalar": True, "dyn": plain_bw, "couplings": True}),
         ("jpsi_3pi_hel/axisangle", "jpsi_3pi_hel", {"align": "axisangle"}),
+        # symbols with EVERY kind of assumption declaration (round 5, seed C17_5): custom dynamics whose couplings are
+        # declared through each single fact of SymPy, True and False (zero=False, real=False, integer=False,
+        # positive=False, … — False-valued facts that no True fact of the symbol implies) and through mixed True/False
+        # sets (a coupling with commutative=False cannot be formulated: SymPy's Abs recurses without end on the
+        # amplitude; non-commutative symbols are in the evolved model below and in the synthetic models) …
+        ("jpsi_gpp_hel/custom-dynamics:every-declaration", "jpsi_gpp_hel", {"dyn": "declared-couplings", "decls": "all"}),
+        ("d0_kkk_can/custom-dynamics:false-facts+mixed", "d0_kkk_can", {"dyn": "declared-couplings", "decls": "false+mixed"}),
+        # … and a library model changed with attrs.evolve: library symbols re-declared (mass with positive=False, width
+        # with zero=False, a kinematic variable with negative=False …), extra parameter_defaults keys and extra
+        # kinematic variables with such declarations
+        ("jpsi_gpp_can/bw_ff+evolved-declarations", "jpsi_gpp_can",
+         {"dyn": create_relativistic_breit_wigner_with_ff, "stable": [1, 2], "evolve": True}),
     ]
+
+
+DECL_MODEL_LABELS = ("jpsi_gpp_hel/custom-dynamics:every-declaration", "d0_kkk_can/custom-dynamics:false-facts+mixed",
+                     "jpsi_gpp_can/bw_ff+evolved-declarations")
+
+
+def declaration_corpus() -> list[dict]:
+    """Keyword arguments for `Symbol(name, **kw)`: every single fact of SymPy with value True and with value False, and
+    mixed True/False sets (consistent ones only; several give the same `assumptions0`)."""
+    import sympy as sp
+
+    out = []
+    for f in fact_universe():
+        for v in (False, True):
+            out.append({f: v})
+    out += [
+        {"real": True, "positive": False}, {"complex": True, "zero": False}, {"real": True, "integer": False},
+        {"positive": True, "integer": False}, {"finite": True, "real": False}, {"real": True, "zero": False},
+        {"integer": True, "positive": False, "zero": False}, {"rational": False, "real": True},
+        {"nonnegative": True, "zero": False}, {"imaginary": False, "real": False}, {"extended_real": True, "finite": False},
+        {"nonzero": False, "real": True}, {"complex": True, "real": False, "imaginary": False},
+        {"algebraic": False, "positive": True}, {"even": False, "integer": True}, {"hermitian": False, "finite": True},
+        {"commutative": False, "zero": False}, {"commutative": False, "finite": True}, {"commutative": False, "complex": False},
+    ]
+    ok = []
+    for kw in out:
+        try:
+            sp.Symbol("x", **kw)
+        except Exception:  # noqa: BLE001  inconsistent combination
+            continue
+        ok.append(kw)
+    return ok
+
+
+def decl_tag(kw: dict) -> str:
+    return ",".join(f"{k}={'T' if v else 'F'}" for k, v in sorted(kw.items()))
+
+
+def value_contradicts(sym, value) -> bool:
+    """Does a numeric parameter value contradict a fact of the symbol's declaration?"""
+    import sympy as sp
+
+    if isinstance(value, complex) and (sym.is_real or sym.is_extended_real):
+        return True
+    try:
+        z = sp.sympify(value)
+    except Exception:  # noqa: BLE001
+        return True
+    for f, want in sym.assumptions0.items():
+        if f == "commutative":
+            continue
+        got = getattr(z, "is_" + f, None)
+        if got is not None and got != want:
+            return True
+    return False
+
+
+VALUE_CANDIDATES = [1.0 + 0.5j, 0.75, -1.25, 2, -3, 0, 1.5j, 7, 4, 2.5 - 1j]
+
+
+def value_satisfying(sym):
+    for v in VALUE_CANDIDATES:
+        if not value_contradicts(sym, v):
+            return v
+    return 1.0  # (infinite=True …: no finite value; such symbols are outside the numeric clause of merging maps)
+
+
+class DeclaredCouplings:
+    """Custom dynamics (assigned with `builder.dynamics.assign`): a relativistic Breit-Wigner times a sum of couplings, each
+    declared through another entry of `declaration_corpus()`; the builder object walks through the corpus so that
+    the resonances of a model share it out."""
+
+    def __init__(self, which: str):
+        corpus = [kw for kw in declaration_corpus() if kw.get("commutative") is not False]
+        if which == "false+mixed":  # mixed sets and every False-valued single fact (in the canonical formalism)
+            corpus = [kw for kw in corpus if len(kw) > 1 or not next(iter(kw.values()))]
+        self.corpus = corpus
+        self.shares: dict[str, int] = {}  # resonance name -> which share of the corpus (the builder calls once per decay node)
+        self.n_resonances = None
+
+    def __call__(self, resonance, variable_pool):
+        import sympy as sp
+
+        from ampform.dynamics import relativistic_breit_wigner
+
+        identifier = resonance.latex or resonance.name
+        mass = sp.Symbol(f"m_{{{identifier}}}", nonnegative=True)
+        width = sp.Symbol(Rf"\Gamma_{{{identifier}}}", nonnegative=True)
+        n = self.n_resonances or 1
+        share = self.corpus[self.shares.setdefault(resonance.name, len(self.shares)) % n :: n]
+        couplings = [sp.Symbol(f"g^{{{decl_tag(kw)}}}_{{{identifier}}}", **kw) for kw in share]
+        s = variable_pool.incoming_state_mass**2
+        expr = sp.Add(*couplings) * relativistic_breit_wigner(s, mass, width)
+        pars = {mass: resonance.mass, width: resonance.width}
+        pars.update({g: value_satisfying(g) for g in couplings})
+        return expr, pars
+
+
+def evolve_declarations(model):
+    """What a user does with `attrs.evolve`: re-declare library symbols (same names, other assumption declarations) in all
+    attributes, add parameter_defaults keys and kinematic variables that carry such declarations."""
+    import attrs
+    import sympy as sp
+
+    from ampform.kinematics.lorentz import InvariantMass, create_four_momentum_symbol
+
+    pars = [s for s in model.parameter_defaults if isinstance(s, sp.Symbol)]
+    kins = list(model.kinematic_variables)
+    redecl = [{"positive": False}, {"zero": False}, {"real": True, "integer": False}, {"negative": False},
+              {"rational": False, "real": True}, {"nonnegative": True, "zero": False}, {"imaginary": False}, {"integer": False}]
+    mp = {}
+    for i, s in enumerate(pars[: len(redecl)]):
+        mp[s] = sp.Symbol(s.name, **redecl[i])
+    for i, s in enumerate(kins[:3]):
+        mp[s] = sp.Symbol(s.name, **[{"negative": False}, {"real": True, "zero": False}, {"extended_real": True, "infinite": False}][i])
+    extra_pars = {sp.Symbol("c_{extra}^{zero=F}", zero=False): 1.0 + 0.5j, sp.Symbol("c_{extra}^{real=F}", real=False): 2j,
+                  sp.Symbol("c_{extra}^{commutative=F}", commutative=False): 1.0,
+                  sp.Symbol("c_{extra}^{commutative=F,zero=F}", commutative=False, zero=False): -2.5,
+                  sp.Symbol("c_{extra}^{odd=T}", odd=True): 3}
+    extra_kins = {sp.Symbol("u_0^{integer=F}", integer=False): InvariantMass(create_four_momentum_symbol(0)),
+                  sp.Symbol("u_1^{positive=F,real=T}", real=True, positive=False): InvariantMass(create_four_momentum_symbol(1))}
+    return attrs.evolve(
+        model,
+        intensity=model.intensity.xreplace(mp),
+        amplitudes={k: v.xreplace(mp) for k, v in model.amplitudes.items()},
+        parameter_defaults={**{mp.get(k, k): v for k, v in model.parameter_defaults.items()}, **extra_pars},
+        kinematic_variables={**{mp.get(k, k): v.xreplace(mp) for k, v in model.kinematic_variables.items()}, **extra_kins},
+        components={k: v.xreplace(mp) for k, v in model.components.items()},
+    )
 
 
 def load_reaction(name: str):
@@ -507,15 +725,42 @@ def load_real_models(only=None) -> list[tuple[str, object]]:
         if kw.get("couplings"):
             b.config.use_helicity_couplings = True
         if kw.get("dyn"):
-            for p in r.get_intermediate_particles().names:
-                b.dynamics.assign(p, kw["dyn"])
-        out.append((label, b.formulate()))
+            dyn = kw["dyn"]
+            names = r.get_intermediate_particles().names
+            if dyn == "declared-couplings":
+                dyn = DeclaredCouplings(kw["decls"])
+                dyn.n_resonances = len(names)
+            for p in names:
+                b.dynamics.assign(p, dyn)
+        model = b.formulate()
+        if kw.get("evolve"):
+            model = evolve_declarations(model)
+        out.append((label, model))
     return out
 
 
 # --------------------------------------------------------------------------- synthetic models
 
-ASSUMPTIONS = [{}, {"real": True}, {"positive": True}, {"nonnegative": True}, {"complex": True}]
+ASSUMPTIONS = [{}, {"real": True}, {"positive": True}, {"nonnegative": True}, {"complex": True}]  # what the library declares
+_LIBRARY_DECLS: set = set()
+
+
+def is_library_declaration(s) -> bool:
+    import sympy as sp
+
+    if not _LIBRARY_DECLS:
+        for kw in [*ASSUMPTIONS, {"rational": True}]:
+            _LIBRARY_DECLS.add(tuple(sorted(sp.Symbol("x", **kw).assumptions0.items())))
+    return tuple(sorted(s.assumptions0.items())) in _LIBRARY_DECLS
+
+
+def draw_declaration(rng, p_other: float = 0.4) -> dict:
+    """Keyword arguments of a synthetic symbol: a library-style declaration, or (with probability `p_other`) any entry of
+    `declaration_corpus()` — single True/False facts, mixed sets, commutative=False."""
+    if rng.random() < p_other:
+        return dict(rng.choice(declaration_corpus()))
+    return dict(rng.choice(ASSUMPTIONS))
+
 PARAM_NAMES = ["a", "b", "c1", "c2", "c10", "C_{x}", "C_{y;z}", "m_{f_0}", "Gamma_{f_0}", "d_{f_0}",
                "g+1", "g-1", "w1.5", "w1.25", "m_0", "m_1", "B12", "b12", "k_{+1/2}", "k_{-1/2}",
                # names as the builders make them: backslashes, nested braces, commas, parentheses, arrows, blanks
@@ -529,7 +774,52 @@ FRESH_NAMES = ["k", "q7", "z_{new}", "x10", "x9", "x09", "w+2", "M1.50", "M1.5",
 VALUES = [1, 0, 0.5, 2.5, 1 + 0j, complex(0.3, -0.2), 0.1349768, -1.25, -0.0, 1e-300, 10**20, 1j, complex(-2, 0.0), -3, 7.0]
 
 
+class _wall_cap:  # noqa: N801
+    """Wall-clock cap (main thread only; a no-op elsewhere)."""
+
+    def __init__(self, seconds: int):
+        self.seconds, self.armed = seconds, False
+
+    def _fire(self, *_):
+        raise TimeoutError("time cap")
+
+    def __enter__(self):
+        import signal
+        import threading
+
+        if threading.current_thread() is threading.main_thread():
+            self.old = signal.signal(signal.SIGALRM, self._fire)
+            signal.alarm(self.seconds)
+            self.armed = True
+        return self
+
+    def __exit__(self, *exc):
+        import signal
+
+        if self.armed:
+            signal.alarm(0)
+            signal.signal(signal.SIGALRM, self.old)
+        return False
+
+
+SYNTH_REFUSED = [0]  # models SymPy's constructors refused (RecursionError of Abs on non-commutative arguments, …) or that took too long
+
+
 def synthetic_model(rng, reaction, idx: int = 0):
+    """A small random HelicityModel; draws again (same PRNG stream, so still determined by the seed) when SymPy's own
+    constructors refuse the drawn trees (e.g. Abs of some non-commutative products recurses without end) or exceed 20 s."""
+    last = None
+    for _ in range(40):
+        try:
+            with _wall_cap(20):
+                return _synthetic_model(rng, reaction, idx)
+        except (RecursionError, TimeoutError, TypeError, ValueError, AttributeError, NotImplementedError, ZeroDivisionError) as e:
+            SYNTH_REFUSED[0] += 1
+            last = e
+    raise common.InfraError(f"no synthetic model could be built: {type(last).__name__}: {last}")
+
+
+def _synthetic_model(rng, reaction, idx: int = 0):
     """A small random HelicityModel (real class, real converters) around a stored reaction."""
     import sympy as sp
 
@@ -543,12 +833,15 @@ def synthetic_model(rng, reaction, idx: int = 0):
     n_kin = rng.randint(1, 4)
     n_mom = rng.randint(1, 3)
     pnames = rng.sample(PARAM_NAMES, n_par)
-    params = [sp.Symbol(n, **rng.choice(ASSUMPTIONS)) for n in pnames]
+    params = [sp.Symbol(n, **draw_declaration(rng)) for n in pnames]
     if rng.random() < 0.15:  # a second symbol of an existing name with other assumptions
         s = rng.choice(params)
-        other = [a for a in ASSUMPTIONS if sp.Symbol(s.name, **a) != s]
+        other = [a for a in [*ASSUMPTIONS, {"zero": False}, {"real": False}, {"positive": False}, {"real": True, "integer": False}]
+                 if sp.Symbol(s.name, **a) != s]
         params.append(sp.Symbol(s.name, **rng.choice(other)))
-    kins = [sp.Symbol(n, **rng.choice([{"real": True}, {"nonnegative": True}])) for n in rng.sample(KIN_NAMES, n_kin)]
+    kin_decls = [{"real": True}, {"nonnegative": True}, {"real": True}, {"nonnegative": True}, {"negative": False},
+                 {"real": True, "zero": False}, {"integer": False}, {"extended_real": True, "infinite": False}, {"imaginary": False}]
+    kins = [sp.Symbol(n, **rng.choice(kin_decls)) for n in rng.sample(KIN_NAMES, n_kin)]
     moms = [create_four_momentum_symbol(i) for i in range(n_mom)]
 
     def mom_expr():
@@ -605,11 +898,13 @@ def synthetic_model(rng, reaction, idx: int = 0):
         ok = [v for v in VALUES if not (
             (sym.is_real and isinstance(v, complex)) or (sym.is_positive and not isinstance(v, complex) and v <= 0)
             or (sym.is_nonnegative and not isinstance(v, complex) and v < 0))]
+        if not is_library_declaration(sym):
+            ok = [v for v in ok if not value_contradicts(sym, v)] or [value_satisfying(sym)]
         return rng.choice(ok)
 
     pvals = {p: value_for(p) for p in params}
     for _ in range(rng.choice([0, 0, 1, 2])):  # parameters that occur only in parameter_defaults
-        extra = sp.Symbol(rng.choice(["m_7", "m_8", "unused_{par}", "zeta"]), **rng.choice(ASSUMPTIONS))
+        extra = sp.Symbol(rng.choice(["m_7", "m_8", "unused_{par}", "zeta"]), **draw_declaration(rng))
         pvals[extra] = value_for(extra)
     items = list(pvals.items())
     rng.shuffle(items)
@@ -635,6 +930,11 @@ KINDS = ["injective", "injective", "merge_existing", "merge_fresh", "chain", "ch
          "swap_within", "chain_within", "mom_merge"]
 
 
+# maps aimed at the symbols whose declaration is not one the library makes (they fall back to ordinary kinds on models
+# without such symbols)
+DECL_KINDS = ["decl_all", "decl_injective", "decl_swap", "decl_chain", "decl_merge_existing", "decl_merge_fresh"]
+
+
 def model_info(m) -> dict:
     import sympy as sp
 
@@ -653,6 +953,9 @@ def model_info(m) -> dict:
         "kin": sorted({s.name for s in kin_keys}),
         "mom": sorted({s.name for s in kin_val_syms - set(kin_keys) - set(par_keys)}),
         "names": sorted({s.name for s in all_syms}),
+        # names of symbols whose declaration is not a library-style one / would lose facts in a rebuild from the True facts
+        "decl": sorted({s.name for s in all_syms if not is_library_declaration(s)}),
+        "lossy": sorted({s.name for s in all_syms if loses_facts_if_rebuilt_from_true_facts(s)}),
         "by_name": {n: [s for s in all_syms if s.name == n] for n in {s.name for s in all_syms}},
     }
 
@@ -684,6 +987,44 @@ def gen_map(rng, info, kind):  # noqa: C901, PLR0911, PLR0912
         return {}
     if kind == "unknown":
         return {fresh(rng, info): fresh(rng, info) for _ in range(rng.randint(1, 3))}
+    if kind == "injective":
+        chosen = rng.sample(N, rng.randint(1, min(4, len(N))))
+        out, taken = {}, []
+        for n in chosen:
+            out[n] = fresh(rng, info, taken)
+            taken.append(out[n])
+        return out
+    D = info.get("decl", [])
+    if kind.startswith("decl_"):
+        if not D:
+            kind = "injective"
+        elif kind == "decl_all":
+            return {n: f"q_{i}" for i, n in enumerate(D)} if rng.random() < 0.5 else {n: n + "'" for n in D}
+        elif kind == "decl_injective":
+            chosen = rng.sample(D, rng.randint(1, min(4, len(D))))
+            out, taken = {}, []
+            for n in chosen:
+                out[n] = fresh(rng, info, taken)
+                taken.append(out[n])
+            return out
+        elif kind == "decl_swap" and len(D) >= 2:
+            a, b = rng.sample(D, 2)
+            return {a: b, b: a}
+        elif kind == "decl_chain" and len(D) >= 2:
+            a, b = rng.sample(D, 2)
+            return {a: b, b: fresh(rng, info)}
+        elif kind == "decl_merge_existing":
+            a = rng.choice(D)
+            others = [n for n in P if n != a]
+            if others:
+                b = rng.choice(others)
+                return {a: b} if rng.random() < 0.5 else {b: a}
+            kind = "injective"
+        elif kind == "decl_merge_fresh" and len(D) >= 2:
+            n = fresh(rng, info)
+            return {a: n for a in rng.sample(D, rng.randint(2, min(3, len(D))))}
+        else:
+            kind = "injective"
     if kind == "injective":
         chosen = rng.sample(N, rng.randint(1, min(4, len(N))))
         out, taken = {}, []
@@ -780,4 +1121,4 @@ def invertible(info, renames) -> dict | None:
 
 def gen_sequence(rng, length=None):
     n = length or rng.choice([1, 1, 2, 3])
-    return [rng.choice(KINDS) for _ in range(n)]
+    return [rng.choice(KINDS) if rng.random() < 0.75 else rng.choice(DECL_KINDS) for _ in range(n)]
